@@ -68,8 +68,10 @@ def c02_oracle(app, b, q, r, budget, stats):
                 rows[ops.tok_of_uuid(u)] = {b.rcid_of_name(rc): amt for rc, amt in body['resources'].items()}
         else:
             for x in al:
-                rows[ops.tok_of_uuid(x['resource_provider']['uuid'])] = {
-                    b.rcid_of_name(rc): amt for rc, amt in x['resources'].items()}
+                u = ops.tok_of_uuid(x['resource_provider']['uuid'])
+                if u in rows:
+                    probs.append('candidate %d names provider %d in two entries of its allocations list' % (idx, u))
+                rows.setdefault(u, {}).update({b.rcid_of_name(rc): amt for rc, amt in x['resources'].items()})
         named = set(rows)
         maps = {}
         for k, us in ar.get('mappings', {}).items():
@@ -153,6 +155,13 @@ def c02_oracle(app, b, q, r, budget, stats):
                 probs.append('candidate %d sent unchanged as the allocations of a new consumer was answered %d: %s' % (
                     idx, w.status, w.body[:200]))
             else:
+                # "claimed exactly as returned": what is stored for the new consumer is the candidate, row for row
+                g = app.request('GET', '/allocations/%s' % cu, version='1.39', headers=SVC)
+                stored = {ops.tok_of_uuid(u): {b.rcid_of_name(rc): amt for rc, amt in x['resources'].items()}
+                          for u, x in (g.json or {}).get('allocations', {}).items()}
+                if stored != rows:
+                    probs.append('candidate %d was accepted as the allocations of a new consumer but stored as %r, returned was %r' % (
+                        idx, stored, rows))
                 dl = app.request('DELETE', '/allocations/%s' % cu, version='1.39', headers=SVC)
                 assert dl.status == 204, dl.status
     return probs
